@@ -62,7 +62,9 @@ def cases(draw, max_chroms=3, max_bins=5):
     return {"part": "balanced", "bt": bt, "symmetric": symmetric, "rows": rows, "weights": weights,
             "win": [i0, i1, j0, j1], "out": draw(st.sampled_from(["dense", "sparse", "pixels", "pixels-join"])),
             "balance": balance, "divisive": draw(st.sampled_from([None, None, True, False])),
-            "chunksize": draw(st.sampled_from([1, 3, 10**7])), "via": draw(st.sampled_from(["slice", "slice", "fetch"]))}
+            "chunksize": draw(st.sampled_from([1, 3, 10**7])), "via": draw(st.sampled_from(["slice", "slice", "fetch"])),
+            # history: the Cooler object exists (and has been queried) before the weight columns are written / replaced
+            "late_weights": draw(st.booleans())}
 
 
 def check_balanced(case, ctx: Ctx):
@@ -78,8 +80,23 @@ def check_balanced(case, ctx: Ctx):
     balance = case["balance"]
     name = "weight" if balance is True else balance
     try:
-        call("create", create_from_model, path, bt, rows, symmetric, bins_extra=W, h5opts={"compression": None})
-        clr = cooler.Cooler(path)
+        if case.get("late_weights"):
+            import h5py
+
+            # stale columns first, an early query through the object, then the real columns are written the way
+            # balance_cooler(store=True) does it
+            stale = {k: np.ones(n) * 7.0 for k in W}
+            call("create", create_from_model, path, bt, rows, symmetric, bins_extra=stale, h5opts={"compression": None})
+            clr = cooler.Cooler(path)
+            _ = clr.matrix(balance=next(iter(W)), sparse=True)[:]
+            _ = clr.matrix(balance=next(iter(W)))[0:n, 0:n]
+            with h5py.File(path, "r+") as f:
+                for k, v in W.items():
+                    del f["bins"][k]
+                    f["bins"].create_dataset(k, data=v, compression="gzip", compression_opts=6)
+        else:
+            call("create", create_from_model, path, bt, rows, symmetric, bins_extra=W, h5opts={"compression": None})
+            clr = cooler.Cooler(path)
         out = case["out"]
         sel = clr.matrix(balance=balance, sparse=(out == "sparse"), as_pixels=out.startswith("pixels"),
                          join=(out == "pixels-join"), divisive_weights=case["divisive"], chunksize=case["chunksize"])
@@ -130,7 +147,7 @@ def check_balanced(case, ctx: Ctx):
     nt = (i0, i1) != (j0, j1) and has and nanw
     ctx.record(case, nt, ["balanced", "out=" + out, "name=" + name, "divisive=" + str(case["divisive"]),
                           "same-range" if (i0, i1) == (j0, j1) else "diff-range-same-len" if i1 - i0 == j1 - j0 else "diff-len",
-                          "sym" if symmetric else "square"])
+                          "sym" if symmetric else "square", "late-weights" if case.get("late_weights") else "weights-at-creation"])
 
 
 CHECKS = {"balanced": check_balanced}
